@@ -389,5 +389,5 @@ def check(repo, rep, tier):
     n = r_token_access(repo, rep)
     rep.floor('printer functions inspected for token access', n, 35)
     nf, ns = r_feature_and_shape(repo, rep)
-    rep.floor('feature member reads in printers', nf, 2)
+    rep.floor('feature member reads in printers', nf, 1)
     rep.floor('shape-specific reads in category printers', ns, 10)
